@@ -59,7 +59,15 @@ def gen(rng, tier):
         nruns = 1 if cs in ('default',) or (isinstance(cs, int) and cs >= L) else (L if cs in (0, 1) else -(-L // cs))
         keys = [t[0] for t in items]
         tie = len(set(keys)) < len(keys)
-        yield Case(sx.dump(['xsort', cs, threads, comp, rev, ['items'] + items]), nruns >= 2 and (tie or big), 'c%s' % comp)
+        case = ['xsort', cs, threads, comp, rev, ['items'] + items]
+        if rev == 0 and rng.random() < 0.3:
+            case.append('ord')                       # ExternalSorter::sort (T: Ord) instead of sort_by
+        yield Case(sx.dump(case), nruns >= 2 and (tie or big), 'c%s' % comp)
+    # a few large runs: par_sort_unstable_by really runs in parallel on them (several thousand items per chunk)
+    for _ in range(2 if tier == 'quick' else 40):
+        L = rng.choice([3000, 6000])
+        items = [[rng.randint(0, 50), 900000 + i, 0] for i in range(L)]
+        yield Case(sx.dump(['xsort', rng.choice([1000, 2500, 'default']), rng.choice([2, 5, 'default']), rng.choice(['none', 1]), rng.choice([0, 1]), ['items'] + items]), True, 'large-runs')
 
 
 def gen_recs(rng, tier):
